@@ -340,6 +340,32 @@ def names_stream(ctx, rng, n):
             ctx.disagreement("C16.model.names", f"Lean name table disagrees with the reference: {str(ans)[:120]}", rep)
         if not built:
             continue
+        # --- mode expansion of a mode-free model: the expanded pins must not print alike either
+        if all(t[1] is None for t in pins) and rng.random() < 0.5:
+            mlist = [rng.choice(["c", "b_c", "TE", "b"]) for _ in range(rng.randint(1, 3))]
+            erep = dict(rep, kind="names-expand", modes=mlist)
+            ctx.case(erep, tags=["stream:names-expand", "modes:duplicate" if len(set(mlist)) != len(mlist) else "modes:distinct"])
+            exp_names = [f"{t[0]}_{mm}" for t in pins for mm in mlist]
+            clash = len(set(exp_names)) != len(exp_names)
+            me = L.Model(pin_dic={mk(t): j for t, j in zip(pins, idx)}, Smatrix=np.arange(k * k).reshape(k, k).astype(complex))
+            bef = ({(p.basename, p.mode_name): j for p, j in me.pin_dic.items()}, me.N)
+            try:
+                me.expand_mode(list(mlist))
+                eok = True
+            except (ValueError, Exception) as e:  # noqa
+                eok = False
+                if not isinstance(e, ValueError) and clash:
+                    ctx.violation(f"C16:names-raised-{type(e).__name__}", f"expand_mode({mlist}) raised {type(e).__name__} instead of ValueError", erep)
+            aft = ({(p.basename, p.mode_name): j for p, j in me.pin_dic.items()}, me.N)
+            if clash and eok:
+                ctx.violation("C16:expand-collision-accepted", f"expand_mode({mlist}) of pins {[t[0] for t in pins]} makes two pins print alike (or repeats a mode) "
+                              f"but was accepted: {len(aft[0])} pins for a {aft[1]}-port matrix, name table {sorted(me.pin)}", erep)
+            elif clash and aft != bef:
+                ctx.violation("C16:expand-nonatomic", "a rejected expand_mode changed the model", erep)
+            elif not clash:
+                want_e = {(t[0], mm): i * k + j for t, j in zip(pins, idx) for i, mm in enumerate(mlist)}
+                if not eok or aft[0] != want_e or set(me.pin) != set(exp_names):
+                    ctx.violation("C16:expand-names", f"expand_mode({mlist}) of {pins}: pins {aft[0]}, expected {want_e}", erep)
         before = {(p.basename, p.mode_name): j for p, j in m.pin_dic.items()}
         try:
             m.pin_mapping({mk(a): mk(b) for a, b in rho.items()})
@@ -441,9 +467,32 @@ def replay_names(ctx, data):
     return (ok and after == want), (f"renaming gives {after}, expected {want}")
 
 
+def replay_expand(ctx, data):
+    L = impl.lk()
+    pins = [tuple(t) for t in data["pins"]]
+    mlist = data["modes"]
+    k = len(pins)
+    exp_names = [f"{t[0]}_{mm}" for t in pins for mm in mlist]
+    clash = len(set(exp_names)) != len(exp_names)
+    me = L.Model(pin_dic={L.Pin(t[0], t[1]): j for j, t in enumerate(pins)}, Smatrix=np.arange(k * k).reshape(k, k).astype(complex))
+    bef = ({(p.basename, p.mode_name): j for p, j in me.pin_dic.items()}, me.N)
+    try:
+        me.expand_mode(list(mlist))
+        eok = True
+    except Exception:
+        eok = False
+    aft = ({(p.basename, p.mode_name): j for p, j in me.pin_dic.items()}, me.N)
+    if clash:
+        return (not eok and aft == bef), ("colliding expansion rejected, model unchanged" if (not eok and aft == bef) else f"colliding expansion accepted or model changed: {len(aft[0])} pins, N={aft[1]}")
+    want = {(t[0], mm): i * k + j for j, t in enumerate(pins) for i, mm in enumerate(mlist)}
+    return (eok and aft[0] == want), f"expansion gives {aft[0]}"
+
+
 def replay(ctx, data):
     if isinstance(data, dict) and data.get("kind") == "names-random":
         return replay_names(ctx, data)
+    if isinstance(data, dict) and data.get("kind") == "names-expand":
+        return replay_expand(ctx, data)
     import props.c07 as c07
     if data.get("kind") == "sequence":
         comps = c07.comps_from_json(data["comps"])
